@@ -3,7 +3,7 @@
    The model carries a message opaquely: [OFwd c m] is "m with SENDER := unique name of c", so "intact" is
    [m' = m] here; that the real bus leaves every other header field and the body alone is checked
    field by field in the correspondence run (harness/py/routing_impl.py same_message). *)
-From DV Require Import Lib.Base Routing.Routing Spec.RoutingSpec Proofs.RoutingProofs.
+From DV Require Import Lib.Base Routing.Routing Spec.RoutingSpec Proofs.RoutingProofs Proofs.RoutingHeldProofs.
 Local Open Scope N_scope.
 
 (* exactly one delivery per send: the message to the primary owner of the destination AT PROCESSING TIME
@@ -12,7 +12,12 @@ Local Open Scope N_scope.
 Theorem C05_exactly_once : forall cf st c m,
   wf_event st (ESend c m) = true ->
   (exists r, resolve st (m_dest m) = Some r /\ snd (step cf st (ESend c m)) = (r, OFwd c m) :: eav_out cf st c r m) \/
-  (exists e, snd (step cf st (ESend c m)) = [(c, OErr e (m_serial m))]).
+  (exists e, snd (step cf st (ESend c m)) = [(c, OErr e (m_serial m))]) \/
+  (* an auto-start message to an unowned name with a service file: nothing yet, the message is HELD (appended to the
+     pending activation's entries) until the name is acquired -- C05_held_released, C05_fifo_held *)
+  (snd (step cf st (ESend c m)) = [] /\ resolve st (m_dest m) = None /\ auto_starts m = true /\
+   exists n, m_dest m = DName n /\
+     st_held (fst (step cf st (ESend c m))) = set_held (st_held st) n (held_for (st_held st) n ++ [(c, m)])).
 Proof. exact send_exactly_once. Qed.
 Print Assumptions C05_exactly_once.
 
@@ -35,8 +40,9 @@ Theorem C05_copies_once : forall cf st c r m, NoDup (map fst (eav_out cf st c r 
 Proof. exact eavesdrop_once. Qed.
 Print Assumptions C05_copies_once.
 
-(* no step other than a send forwards anything *)
+(* no step other than a send forwards anything -- unless messages are held for an activation (then RequestName releases them) *)
 Theorem C05_only_sends_forward : forall cf st e x,
+  st_held st = [] ->
   match e with ESend _ _ => False | _ => True end -> In x (snd (step cf st e)) -> match snd x with OFwd _ _ => False | _ => True end.
 Proof. exact step_nonsend_no_fwd. Qed.
 Print Assumptions C05_only_sends_forward.
@@ -52,15 +58,36 @@ Theorem C05_delivered : forall cf st c m r,
 Proof. exact permissive_delivers. Qed.
 Print Assumptions C05_delivered.
 
-(* per (sender, recipient) FIFO *)
+(* per (sender, recipient) FIFO, histories in which nothing is held for an activation: what b reads from a is EXACTLY, in order,
+   what the bus passed on in a's send steps *)
 Theorem C05_fifo : forall cf h a b,
+  noauto h = true ->
   filter (from_conn a) (inbox (trace_of cf h) b) = map (OFwd a) (passed_on (trace_of cf h) a b).
 Proof. exact fifo. Qed.
 Print Assumptions C05_fifo.
 
-(* no owner (nothing is activatable in the modelled configuration): exactly one error, state untouched, no delivery *)
+(* EVERY history, with activations: per (sender a, destination d, recipient b), what b reads from a for d is, in order, a
+   subsequence of what a wrote to d -- through direct delivery, hold, release to the new owner, refusals and disconnects.
+   (Across different destinations the order is the order of PROCESSING: a message held for a starting service is overtaken by
+   a later message to another name of the same connection.) *)
+Theorem C05_fifo_held : forall cf h a d b, Sub (arrived (trace_of cf h) a d b) (written (trace_of cf h) a d).
+Proof. exact fifo_held. Qed.
+Print Assumptions C05_fifo_held.
+
+(* the invariant behind it: arrivals so far, followed by everything still held for (a, d), is a subsequence of what was written *)
+Theorem C05_fifo_held_inv : forall cf h a d b,
+  Sub (arrived (trace_of cf h) a d b ++ held_msgs (state_of cf h) a d) (written (trace_of cf h) a d).
+Proof. exact fifo_held_inv. Qed.
+Print Assumptions C05_fifo_held_inv.
+
+(* held messages exist only for unowned names, and carry that name as destination *)
+Theorem C05_held_only_while_unowned : forall cf h, hinv (state_of cf h).
+Proof. exact hinv_all. Qed.
+Print Assumptions C05_held_only_while_unowned.
+
+(* no owner and not activatable (or NO_AUTO_START): exactly one error, state untouched, no delivery *)
 Theorem C05_undeliverable_no_owner : forall cf st c m,
-  wf_event st (ESend c m) = true -> resolve st (m_dest m) = None ->
+  wf_event st (ESend c m) = true -> resolve st (m_dest m) = None -> auto_starts m = false ->
   step cf st (ESend c m) = (st, [(c, OErr (if m_noauto m then ENameHasNoOwner else EServiceUnknown) (m_serial m))]).
 Proof. exact no_owner_error. Qed.
 Print Assumptions C05_undeliverable_no_owner.
@@ -104,6 +131,15 @@ Theorem C05_close_cleans_up : forall cf st c,
   (forall x, In x (st_rules st') -> fst x <> c).
 Proof. exact close_cleans_up. Qed.
 Print Assumptions C05_close_cleans_up.
+
+(* non-vacuity: two messages held for t.N8, released in order to the connection that acquires it, before its RequestName reply *)
+Definition m8a : msg := mkMsg TCall true false 3 0 (DName 8) 0 1.
+Definition m8b : msg := mkMsg TSignal false false 4 0 (DName 8) 0 2.
+Example ex_hold_release :
+  snd (run cfg_p init [EConnect false; EConnect false; ESend 0 m8a; ESend 0 m8b; ERequestName 1 5 8 false false false] [])
+  = [(ERequestName 1 5 8 false false false, [(1, OFwd 0 m8a); (1, OFwd 0 m8b); (1, ODrv 5 1)]);
+     (ESend 0 m8b, []); (ESend 0 m8a, []); (EConnect false, []); (EConnect false, [])].
+Proof. vm_compute. reflexivity. Qed.
 
 (* non-vacuity *)
 Definition eav_all : rule := mkRule true None None None.
